@@ -219,6 +219,8 @@ class Evaluator(object):
         for lid, t in list(env.items()):
             if t is not None and reads_place(t, place):
                 nm = self.names.get(lid, 'local%s' % lid)
+                if t == ('var', nm, lid) or (t[0] == 'var' and t[1] == nm):
+                    continue
                 self.emit('snapshot', t, node, guards, fn, chain, lhs=('var', nm, lid))
                 env[lid] = ('var', nm, lid)
 
@@ -234,6 +236,12 @@ class Evaluator(object):
                     guards = guards + self.implied_guards(s['init'], env)
                 if s.get('els') is not None:
                     self.eval_block(s['els'], dict(env), guards + [Guard((s['sp'], 'let-else', 'letelse', '', None))], fn, chain)
+                pat = s['pat']
+                if pat.get('k') == 'Bind' and 'Mut' in pat.get('mode', '') and val is not None and val[0] == 'call' and len(val[2]) == 0:
+                    # `let mut x = T::new()`: a fresh mutable object keeps its own identity
+                    self.names[pat['id']] = pat['name']
+                    self.emit('snapshot', val, s, guards, fn, chain, lhs=('var', pat['name'], pat['id']))
+                    val = None
                 self.bind_pat(s['pat'], val, env)
             elif sk in ('Semi', 'ExprStmt'):
                 if H.is_log(s['e']):
@@ -353,6 +361,9 @@ class Evaluator(object):
             if node['name'] in H.LOG_MACROS:
                 return ('unit',)
             leaves = tuple(self.eval(l, env, guards, fn, chain) for l in node['leaves'])
+            tm = H.format_template(node)
+            if tm is not None and node['name'] in ('format', 'write', 'writeln', 'panic', 'unreachable', 'assert', 'assert_eq'):
+                leaves = (('lit', '"%s"' % tm.replace('\x00', '\\0')),) + leaves if node['name'] == 'format' else leaves
             t = ('macro', node['name'], leaves)
             self.emit('macro', t, node, guards, fn, chain)
             return t
@@ -498,6 +509,11 @@ class Evaluator(object):
             return t
         npath = norm_path(path)
         ndecl = norm_path(decl) if decl else npath
+        if npath.startswith('<T as ') or npath.startswith('<Self as '):
+            # blanket / generic impl: name the Self type the call was resolved for
+            ga = node.get('gargs') if node.get('k') == 'MethodCall' else (node.get('f') or {}).get('gargs')
+            if ga:
+                npath = '<' + H.norm_path(self.tyenv.get(ga[0], ga[0])) + npath[npath.index(' as '):]
         args = tuple(self.eval(a, env, guards, fn, chain) for a in args_nodes)
         if (is_erased_call(ndecl) or is_erased_call(npath)) and len(args) == 1:
             return args[0]
